@@ -1,0 +1,179 @@
+//go:build verif
+
+// Verification hooks (build tag "verif" only): project the state of a running
+// context and the function-table lookup onto plain data for an external
+// tracer.  With the tag off none of this is compiled (see verif_nohooks.go).
+
+package xpath
+
+import (
+	"fmt"
+	"sort"
+	"sync/atomic"
+)
+
+// VerifDatum is the projection of one element of the evaluation stack.
+// Kind: "b" bool, "n" number, "s" literal, "ns" nodeset (Len nodes),
+// "ds" datum slice (DS members), "inv" invalid datum, "pe" path element,
+// "?" anything else.
+type VerifDatum struct {
+	Kind string
+	B    bool
+	N    float64
+	S    string
+	Len  int
+	DS   []VerifDatum
+}
+
+type VerifElem struct {
+	Name string
+	Keys [][2]string // sorted by key name
+}
+
+type VerifPath struct {
+	Root  bool
+	Elems []VerifElem
+}
+
+type VerifEvent struct {
+	Ctx       string // identity of the run context
+	Ev        string // "step" | "end" | "lookup-enter" | "lookup"
+	Idx       int    // instruction index for "step"
+	Name      string // instruction name / function name
+	Stack     []VerifDatum
+	Paths     []VerifPath
+	NilPaths  bool
+	Keys      []map[string]string
+	PredCount int
+	PredEval  int
+	LLFilter  bool
+	PrevELP   bool
+	Err       string
+	HasValue  bool
+	Value     VerifDatum
+	Seq       uint64 // for "lookup": sequence number taken under mu
+	Loaded    bool   // for "lookup": pluginsLoaded before this lookup
+}
+
+var verifTracer atomic.Value // of func(VerifEvent)
+
+// VerifSetTracer installs (or, with nil, removes) the tracer.  The tracer may
+// block: the hooks are then scheduling gates.
+func VerifSetTracer(f func(VerifEvent)) {
+	if f == nil {
+		verifTracer.Store((func(VerifEvent))(nil))
+		return
+	}
+	verifTracer.Store(f)
+}
+
+func verifGetTracer() func(VerifEvent) {
+	f, _ := verifTracer.Load().(func(VerifEvent))
+	return f
+}
+
+func VerifProjectDatum(s interface{}) VerifDatum {
+	switch d := s.(type) {
+	case litDatum:
+		return VerifDatum{Kind: "s", S: d.lit}
+	case numDatum:
+		return VerifDatum{Kind: "n", N: d.num}
+	case boolDatum:
+		return VerifDatum{Kind: "b", B: d.boolVal}
+	case nodesetDatum:
+		return VerifDatum{Kind: "ns", Len: len(d.nodes)}
+	case datumSliceDatum:
+		out := VerifDatum{Kind: "ds", DS: []VerifDatum{}}
+		for _, m := range d.ds {
+			out.DS = append(out.DS, VerifProjectDatum(m))
+		}
+		return out
+	case invalidDatum:
+		return VerifDatum{Kind: "inv"}
+	case pathElem:
+		return VerifDatum{Kind: "pe", S: fmt.Sprintf("%v", d)}
+	}
+	return VerifDatum{Kind: "?", S: fmt.Sprintf("%T", s)}
+}
+
+func verifProject(ctx *context, ev string, idx int, name string) VerifEvent {
+	e := VerifEvent{Ctx: fmt.Sprintf("%p", ctx), Ev: ev, Idx: idx, Name: name,
+		PredCount: ctx.predicateCount, PredEval: ctx.predicateEvalPath,
+		LLFilter: ctx.isLeafListFilter, PrevELP: ctx.previousPredicateRequiresELP,
+		Stack: []VerifDatum{}, Paths: []VerifPath{}, Keys: []map[string]string{}}
+	for _, s := range ctx.stack {
+		e.Stack = append(e.Stack, VerifProjectDatum(s))
+	}
+	if ctx.actualPathStack == nil {
+		e.NilPaths = true
+	} else {
+		for _, p := range ctx.actualPathStack.stack {
+			vp := VerifPath{Root: p.GetIsRootBased(), Elems: []VerifElem{}}
+			for _, el := range p.GetElem() {
+				ve := VerifElem{Name: el.GetName(), Keys: [][2]string{}}
+				names := []string{}
+				for k := range el.GetKey() {
+					names = append(names, k)
+				}
+				sort.Strings(names)
+				for _, k := range names {
+					ve.Keys = append(ve.Keys, [2]string{k, el.GetKey()[k]})
+				}
+				vp.Elems = append(vp.Elems, ve)
+			}
+			e.Paths = append(e.Paths, vp)
+		}
+	}
+	if ctx.predicatePathElemStack != nil {
+		for _, m := range ctx.predicatePathElemStack.stack {
+			c := map[string]string{}
+			for k, v := range m {
+				c[k] = v
+			}
+			e.Keys = append(e.Keys, c)
+		}
+	}
+	if ctx.res != nil {
+		if ctx.res.runErr != nil {
+			e.Err = ctx.res.runErr.Error()
+		}
+		if ctx.res.value != nil {
+			e.HasValue = true
+			e.Value = VerifProjectDatum(ctx.res.value)
+		}
+	}
+	return e
+}
+
+func verifStep(ctx *context, idx int, name string) {
+	if f := verifGetTracer(); f != nil {
+		f(verifProject(ctx, "step", idx, name))
+	}
+}
+
+func verifRunEnd(ctx *context) {
+	if f := verifGetTracer(); f != nil {
+		f(verifProject(ctx, "end", -1, ""))
+	}
+}
+
+func verifLookupEnter(name string) {
+	if f := verifGetTracer(); f != nil {
+		f(VerifEvent{Ev: "lookup-enter", Name: name})
+	}
+}
+
+var verifLookupSeq uint64 // only touched while holding mu
+
+func verifLookup(name string) {
+	verifLookupSeq++
+	if f := verifGetTracer(); f != nil {
+		f(VerifEvent{Ev: "lookup", Name: name, Seq: verifLookupSeq, Loaded: pluginsLoaded})
+	}
+}
+
+func verifLookupExit(name string) {
+	if f := verifGetTracer(); f != nil {
+		f(VerifEvent{Ev: "lookup-exit", Name: name, Seq: verifLookupSeq, Loaded: pluginsLoaded})
+	}
+}
